@@ -47,8 +47,17 @@ class Project(object):
             for package in sys.modules:
                 modules.add(package.partition('.')[0])
 
-        for p in path:
-            pdir = os.path.join(p, *root.split('.'))
+        if root:
+            # the children of a package are those of the directory the import
+            # system finds the package in, not of every directory of that name
+            try:
+                dirs = self.get_module(root).search_path
+            except ImportError:
+                dirs = [os.path.join(p, *root.split('.')) for p in path]
+        else:
+            dirs = path
+
+        for pdir in dirs:
             try:
                 dlist = os.listdir(pdir)
             except OSError:
